@@ -69,7 +69,7 @@ ob("SDwritedata_gate_scalar", "C03", entry="h_SDwritedata_gate_scalar", mode="bo
 prop("C03",
      residual="composition over histories of writes/reads; the NCvario odometer is decided only bounded (rank <= 2, extents <= 4, thorough tier, "
               "c03_sdio.py) and NCgenio bounded against an NCvario stub; first-write leading/trailing fill of hdf_xdr_NCvdata only for offsets <= 4 MB "
-              "(bounded); type conversion in hdf_xdr_NCvdata; fill-value selection and fill-record contents; position "
+              "(bounded); type conversion in hdf_xdr_NCvdata; fill-value selection only in NC_fill_buffer and the fill kernels HDmemfill/NC_arrayfill (bounded, c03_fill.py), not in the fill-record path; position "
               "numrecs*reclen of the fill records; persistence across SDend/SDstart; netCDF/CDF file types; "
               "dimension ids passed to SDreaddata/SDwritedata; ranks above the stated bounds in the unwound "
               "obligations; NC_var_shape (dsizes/len are what NC_varoffset's contract assumes: the obligation exhausted memory and "
